@@ -48,3 +48,42 @@ Proof.
   destruct (hist_run_inv c cs _ _ (init_inv c Hw) (init_rel c)) as [(_ & Rp & _ & _) _].
   apply paused_blocks_step; auto. rewrite <- Rp. exact Hh.
 Qed.
+
+(* library level (pausable::pause / unpause driven directly, entry point under #[when_not_paused]):
+   pause; any number of attempts on pausable entry points; unpause = identity on the state *)
+Lemma pause_roundtrip_lib : forall c s cs au1 au2 x y,
+  knd c = KPausLib -> paused s = false ->
+  Forall (fun cl => pausable_op (fst cl) = true) cs ->
+  run c s ((Pause x, au1) :: cs ++ [(Unpause y, au2)]) = s /\
+  (forall cl, In cl cs -> step c (set_paused s true) cl = (set_paused s true, false)).
+Proof.
+  intros c s cs au1 au2 x y Hk Hp HF.
+  assert (Hk' : is_paus (knd c) = true) by (rewrite Hk; reflexivity). split.
+  - change ((Pause x, au1) :: cs ++ [(Unpause y, au2)]) with ([(Pause x, au1)] ++ cs ++ [(Unpause y, au2)]).
+    rewrite !run_app.
+    assert (E1 : run c s [(Pause x, au1)] = set_paused s true).
+    { unfold run, run_gen, step_gen, exec_gen, exec_kind. cbn [fold_left fst snd]. rewrite Hk.
+      cbn [exec_paus_lib]. unfold pause, when_not_paused, guard. rewrite Hp. reflexivity. }
+    rewrite E1, (run_paused_noop c (set_paused s true) cs Hk' eq_refl HF).
+    unfold run, run_gen, step_gen, exec_gen, exec_kind. cbn [fold_left fst snd]. rewrite Hk.
+    cbn [exec_paus_lib]. unfold unpause, when_paused, guard. cbn.
+    destruct s; cbn in *; subst; reflexivity.
+  - intros cl Hin. apply paused_blocks_step; auto. rewrite Forall_forall in HF. apply HF; exact Hin.
+Qed.
+
+(* manager role of the allow/block-list examples: a list call succeeds only if the operator holds
+   the role at that moment and has authorised - a revoked manager is refused *)
+Lemma list_call_needs_manager : forall c s u operator au s',
+  knd c = KAllowEx \/ knd c = KBlockEx ->
+  (exec c s (AllowUser u operator, au) = Ok s' \/ exec c s (DisallowUser u operator, au) = Ok s' \/
+   exec c s (BlockUser u operator, au) = Ok s' \/ exec c s (UnblockUser u operator, au) = Ok s') ->
+  mgr s operator = true /\ has_auth au operator = true.
+Proof.
+  intros c s u operator au s' Hk He.
+  unfold exec, exec_gen, exec_kind in He. cbn [fst snd] in He.
+  destruct Hk as [Hk|Hk]; rewrite Hk in He; cbn [exec_allow_ex exec_block_ex] in He;
+    destruct He as [He|[He|[He|He]]]; try discriminate He;
+    unfold only_manager, require_auth, guard in He;
+    destruct (mgr s operator); cbn [bind] in He; try discriminate He;
+    destruct (has_auth au operator); cbn [bind] in He; try discriminate He; auto.
+Qed.
